@@ -69,6 +69,32 @@ Theorem C03_no_activation_twice :
 Proof. exact exec_sorted. Qed.
 Print Assumptions C03_no_activation_twice.
 
+(** ** kernel: a revoked wake-up is never executed, and revoking is final - whatever any client does.
+    (Every leaving waiter revokes: `finally: wake_up.revoke()` of postpone/suspend, `__unsubscribe__` of a scheduled
+    subscription, a finished task revoking its pending cancellations.  The harness observes the other half on the real
+    loop: no activation is ever executed for a coroutine that has ended - probe 'stale'.) *)
+Theorem C03_revoked_never_executed :
+  forall (S : Type) (client : S -> loop -> activation -> S * list kop) n st l,
+    inv l -> Forall (fun x => is_revoked (revoked (x_loop x)) (e_act (x_ev x)) = false) (kexec_x S client n st l).
+Proof. exact revoked_never_executed. Qed.
+Print Assumptions C03_revoked_never_executed.
+
+Theorem C03_revoke_is_final :
+  forall (S : Type) (client : S -> loop -> activation -> S * list kop) n st l i j xi xj s,
+    inv l -> i < j ->
+    nth_error (kexec_x S client n st l) i = Some xi -> nth_error (kexec_x S client n st l) j = Some xj ->
+    In (KRevoke s) (x_ops xi) -> a_sig (e_act (x_ev xj)) <> Some s.
+Proof. exact revoke_is_final. Qed.
+Print Assumptions C03_revoke_is_final.
+
+(** non-vacuity: a signal scheduled twice and revoked in between executes neither time *)
+Example C03_revoke_example :
+  map (fun e => a_sig (e_act e))
+      (kexec nat (fun k l a => (S k, nth k [[KAfter (Fin 1) 0%nat (Some 7%nat); KNow 0%nat None]; [KRevoke 7%nat; KAfter (Fin 2) 0%nat (Some 7%nat); KAfter (Fin 3) 0%nat None]] []))
+             10 0%nat (loop_init 1 (Fin 0)))
+  = [None; None; None].
+Proof. vm_compute. reflexivity. Qed.
+
 (** ** livelock, kernel part: the number of activations executed in (the rest of) a time step is bounded by
     the number queued for it plus the number of schedule-for-now requests issued during it.
     _partial: the bound of those requests per API operation (1 + number of waiters woken) is argued in
